@@ -31,6 +31,7 @@ inductive Site where
   | browseNamePath      -- `RelativePath::from_str(..).unwrap()` in `add_node`
   | assertNamespace     -- `AddressSpace::insert` → `assert_namespace`
   | selfReference       -- `References::insert_reference` with source = target
+  | arrayDimensions     -- `Variable(Type)::from_attributes`: `attributes.array_dimensions.unwrap()`
 deriving Repr, DecidableEq
 
 inductive Outcome where
@@ -42,10 +43,11 @@ structure Variant where
   pathBuilt : Bool       -- `add_node` builds the RelativePath directly (no text parsing)
   nsChecked : Bool       -- `add_node` rejects a requested id in an unregistered namespace
   selfChecked : Bool     -- `add_reference` rejects source = target
+  dimsChecked : Bool     -- `from_attributes` does not unwrap a null ArrayDimensions
 deriving Repr, DecidableEq
 
-def pinned : Variant := ⟨false, false, false⟩
-def repaired : Variant := ⟨true, true, true⟩
+def pinned : Variant := ⟨false, false, false, false⟩
+def repaired : Variant := ⟨true, true, true, true⟩
 
 structure NodeRef where
   ns : Nat
@@ -118,7 +120,9 @@ def AS.validTypeDef (a : AS) (cls : Nat) (td : NodeRef) : Bool :=
   else td.isNull
 
 inductive Attrs where
-  | fits (cls : Nat)     -- decodable attributes structure of node class `cls` with the mandatory fields
+  | fits (cls : Nat) (nullDims : Bool)
+      -- decodable attributes structure of node class `cls` with the mandatory fields; `nullDims`: the
+      -- ArrayDimensions bit of specified_attributes is set but the array is null (Variable / VariableType)
   | unusable             -- null / unknown type id / undecodable body / mandatory fields missing
 deriving Repr, DecidableEq
 
@@ -139,11 +143,21 @@ deriving Repr, DecidableEq
 
 /-- second half of `add_node`: the node id is known (`a1` is the address space after a generated id
 was taken from the counter) -/
-def addNodeTail (a1 : AS) (newId : NodeRef) (r : AddNodeReq) (rt : Nat) : Outcome × AS :=
+def Attrs.fitsClass : Attrs → Nat → Bool
+  | .fits c _, cls => c == cls
+  | .unusable, _ => false
+
+def Attrs.hasNullDims : Attrs → Bool
+  | .fits _ d => d
+  | .unusable => false
+
+def addNodeTail (v : Variant) (a1 : AS) (newId : NodeRef) (r : AddNodeReq) (rt : Nat) : Outcome × AS :=
   if !a1.validTypeDef r.cls r.typeDef then (.status .BadTypeDefinitionInvalid, a1)
   -- `!item.parent_node_id.server_index == 0` is `(!x) == 0`: true only for x = u32::MAX
   else if r.parentServerIndex = 4294967295 || !a1.exists r.parent then (.status .BadParentNodeIdInvalid, a1)
-  else if r.attrs ≠ .fits r.cls then (.status .BadNodeAttributesInvalid, a1)
+  else if !r.attrs.fitsClass r.cls then (.status .BadNodeAttributesInvalid, a1)
+  -- `create_node` → `Variable::from_attributes` / `VariableType::from_attributes`
+  else if !v.dimsChecked && r.attrs.hasNullDims && (r.cls == 2 || r.cls == 16) then (.panic .arrayDimensions, a1)
   -- `AddressSpace::insert` → `assert_namespace`: `namespace as usize > namespaces.len()`
   else if decide (newId.ns > a1.namespaces) then (.panic .assertNamespace, a1)
   else
@@ -167,8 +181,8 @@ def addNode (v : Variant) (a : AS) (canModify : Bool) (r : AddNodeReq) : Outcome
     | none => (.status .BadReferenceTypeIdInvalid, a)
     | some rt =>
       -- the id is either the requested one or `NodeId::next_numeric(internal_namespace)`
-      if r.reqId.isNull then addNodeTail { a with nextAuto := a.nextAuto + 1 } ⟨a.internalNs, a.nextAuto⟩ r rt
-      else addNodeTail a r.reqId r rt
+      if r.reqId.isNull then addNodeTail v { a with nextAuto := a.nextAuto + 1 } ⟨a.internalNs, a.nextAuto⟩ r rt
+      else addNodeTail v a r.reqId r rt
 
 structure AddRefReq where
   src : NodeRef
